@@ -380,3 +380,56 @@ def standard_flow(ctx, spec):
                    extra={"known_findings_reported": sorted(reported)})
     ctx.note("done rc=%d" % rc)
     return rc
+
+
+# ------------------------------------------------- shared daemon harness build
+
+def _tree_hash(paths):
+    h = hashlib.sha1()
+    for p in sorted(paths):
+        try:
+            h.update(p.encode()); h.update(open(p, "rb").read())
+        except OSError:
+            pass
+    return h.hexdigest()
+
+
+def repo_sources():
+    out = []
+    for d in ("src/microhttpd", "src/include", "src/microhttpd_ws"):
+        dd = os.path.join(REPO, d)
+        if os.path.isdir(dd):
+            out += [os.path.join(dd, f) for f in os.listdir(dd) if f.endswith((".c", ".h"))]
+    out.append(os.path.join("/repo", "MHD_config.h"))
+    return out
+
+
+def build_cached(name, key_paths, builder):
+    """run builder() (which must produce build/<name>) unless the content hash of
+    key_paths is unchanged since the last successful build.  Content-keyed, so any edit of
+    /repo's working tree triggers a rebuild."""
+    os.makedirs(BUILD, exist_ok=True)
+    with flock("cc_" + name):
+        stamp = os.path.join(BUILD, name + ".stamp")
+        hv = _tree_hash(key_paths) + REPO
+        out = os.path.join(BUILD, name)
+        try:
+            if open(stamp).read() == hv and os.path.exists(out):
+                return out
+        except OSError:
+            pass
+        if os.path.exists(stamp):
+            os.unlink(stamp)
+        builder()
+        open(stamp, "w").write(hv)
+        return out
+
+
+def build_daemon_harness(name="h_daemon", src="harness/h_daemon.c", extra=(), exclude=("mhd_mono_clock.c",), tag="lib_san", san=True, compiler="gcc", ldextra=()):
+    srcp = os.path.join(VERIF, src)
+    keys = repo_sources() + [srcp, os.path.join(VERIF, "harness/common/lp.h")]
+
+    def b():
+        objs = cc_lib_objects(tag + "_" + name, extra=extra, san=san, exclude=exclude, compiler=compiler)
+        cc(name, [srcp], extra=extra, libs=["-lgnutls", "-lpthread"] + list(ldextra), objs=objs, san=san, compiler=compiler)
+    return build_cached(name, keys, b)
